@@ -105,24 +105,26 @@ def r1_codec(ctx, nf) -> None:
         ctx.check(ea == nf.expr_nf("self.get_extension().name", c)[0], "C10.R1", f"{c.qualname}: extension written", c.module.path, m.lineno,
                   "the serialized definition must name its owning extension", m, found=show(ea) if ea else "<missing>")
     # ---- Extension itself: dict-of-definitions idiom
+    from ..rulekit import arg_of
     c = em.classes["Extension"]
-    enc = c.methods.get("_to_serial")
     sc = prog.module(SEXT).classes["Extension"]
-    dec = sc.methods.get("deserialize")
-    if enc is None or dec is None:
+    if c.methods.get("_to_serial") is None or sc.methods.get("deserialize") is None:
         ctx.broken("anchor vanished: Extension codec")
+    # canonical bodies: accumulate loops are comprehensions, temporaries are substituted, keywords follow the callee's layout
+    enc = ctx.cfn(f"{EXT}.Extension._to_serial")
+    dec = ctx.cfn(f"{SEXT}.Extension.deserialize")
     enc_call = [x for x in calls_in(enc) if u(x.func).endswith("Extension")]
     if len(enc_call) != 1:
         ctx.broken("Extension._to_serial: constructor call not found")
     for f in ("name", "version", "runtime_reqs"):
-        v = kwarg(enc_call[0], f)
+        v = arg_of(ctx, enc_call[0], f, c.module, c)
         ctx.check(v is not None and u(v) == f"self.{f}", "C10.R1", f"hugr.ext.Extension.{f}: encoded", c.module.path, enc.lineno,
                   f"Extension._to_serial must write {f}=self.{f}", enc, found=u(v))
     dec_ctor = [x for x in calls_in(dec) if u(x.func) == "ext.Extension"]
     if len(dec_ctor) != 1:
         ctx.broken("serial Extension.deserialize: ext.Extension(...) call not found")
     for f in ("name", "version", "runtime_reqs"):
-        v = kwarg(dec_ctor[0], f)
+        v = arg_of(ctx, dec_ctor[0], f, sc.module, sc)
         ctx.check(v is not None and u(v) == f"self.{f}", "C10.R1", f"hugr.ext.Extension.{f}: decoded", sc.module.path, dec.lineno,
                   f"Extension.deserialize must pass {f}=self.{f}", dec, found=u(v))
     evar = None
@@ -130,7 +132,7 @@ def r1_codec(ctx, nf) -> None:
         if isinstance(n, ast.Assign) and n.value is dec_ctor[0] and isinstance(n.targets[0], ast.Name):
             evar = n.targets[0].id
     for d, adder in (("types", "add_type_def"), ("operations", "add_op_def"), ("values", "add_extension_value")):
-        v = kwarg(enc_call[0], d)
+        v = arg_of(ctx, enc_call[0], d, c.module, c)
         ok = isinstance(v, ast.DictComp) and len(v.generators) == 1 and u(v.generators[0].iter) == f"self.{d}.items()" and not v.generators[0].ifs
         if ok:
             kv = v.generators[0].target
@@ -142,9 +144,10 @@ def r1_codec(ctx, nf) -> None:
         if ok:
             lp = loops[0]
             vname = u(lp.target.elts[1]) if isinstance(lp.target, ast.Tuple) else "?"
-            adds = [x for x in calls_in(lp) if call_name(x) in ("add_type_def", "add_op_def", "add_extension_value")]
             des = [x for x in calls_in(lp) if call_name(x) == "deserialize" and u(x.func.value) == vname and [u(a) for a in x.args] == [evar]]
-            ok = bool(des) and not any(isinstance(x, (ast.Continue, ast.Break, ast.If)) for x in ast.walk(lp))
+            # the decoded definition is handed to the matching adder of the extension being built
+            added = [x for x in calls_in(lp) if call_name(x) == adder and u(x.func.value) == evar and x.args and any(y in des for y in ast.walk(x.args[0]))]
+            ok = bool(des) and bool(added) and not any(isinstance(x, (ast.Continue, ast.Break, ast.If)) for x in ast.walk(lp))
         ctx.check(bool(ok), "C10.R1", f"hugr.ext.Extension.{d}: decoded", sc.module.path, dec.lineno,
                   f"every serialized entry of {d} must be decoded into the extension being built (no filter)", dec)
     rets = [r for r in ast.walk(dec) if isinstance(r, ast.Return)]
